@@ -27,22 +27,24 @@ def walk(node):
                 stack.append(v)
 
 
+_OPS = ["()", "[]", "->*", "->", "<<=", ">>=", "<=>", "<<", ">>", "<=", ">=", "==", "!=",
+        "&&", "||", "++", "--", "+=", "-=", "*=", "/=", "%=", "&=", "|=", "^=", "+", "-",
+        "*", "/", "%", "&", "|", "^", "~", "!", "=", "<", ">", ","]
+
+
 def strip_targs(name):
     """draco::Foo<int, Bar<3>>::f<2> -> draco::Foo::f (bracket matching;
-    keeps operator< / operator<< / operator<= / operator-> intact)."""
+    keeps operator< / operator<< / operator() / operator-> intact)."""
     out, depth, i, n = [], 0, 0, len(name)
     while i < n:
-        if name.startswith("operator", i) and depth == 0:
+        if depth == 0 and name.startswith("operator", i) and \
+                (i == 0 or not (name[i - 1].isalnum() or name[i - 1] == "_")):
             j = i + 8
-            while j < n and name[j] in "<>=-!+*/%&|^~[]() ,":
-                if name[j] == "(" and not name.startswith("()", j):
-                    break
-                j += 1
-            tok = name[i:j]
-            # function template args after an operator are rare; keep token
-            out.append(tok.rstrip())
-            i = j
-            continue
+            tok = next((o for o in _OPS if name.startswith(o, j)), None)
+            if tok is not None:
+                out.append("operator" + tok)
+                i = j + len(tok)
+                continue
         c = name[i]
         if c == "<":
             depth += 1
